@@ -247,6 +247,27 @@ impl Lexer {
         ))
     }
 
+    /// Skip the remainder of a string or character literal after an error.
+    ///
+    /// Consumes up to and including the closing QUOTE, stopping early at the
+    /// end of the line, so that the rest of the malformed literal is not lexed
+    /// as if it were code.
+    fn skip_rest_of_literal(&mut self, quote: char) {
+        while let Some(current) = self.current() {
+            if current == '\n' {
+                break;
+            }
+            self.consume_char();
+            if current == quote {
+                break;
+            }
+            // Do not stop at an escaped quote
+            if current == '\\' && self.current().is_some_and(|c| c != '\n') {
+                self.consume_char();
+            }
+        }
+    }
+
     /// Create the error for an invalid string.
     fn invalid_string(
         &self,
@@ -379,6 +400,9 @@ impl Iterator for Lexer {
                 let string_str = match self.acc_string() {
                     Ok(s) => s,
                     Err(e) => {
+                        if e.kind == StringLexErrorType::InvalidEscapeSequence {
+                            self.skip_rest_of_literal('"');
+                        }
                         return Some(Err(LexError::InvalidString(
                             Box::new(Token::new(
                                 TokenType::String(String::new()),
@@ -413,12 +437,14 @@ impl Iterator for Lexer {
                         '\\' => match self.escape_code() {
                             Some(ec) => ec,
                             None => {
-                                return Some(self.invalid_string(
+                                let error = self.invalid_string(
                                     c.to_string(),
                                     StringLexErrorType::InvalidEscapeSequence,
                                     start,
                                     self.get_pos(),
-                                ))
+                                );
+                                self.skip_rest_of_literal('\'');
+                                return Some(error);
                             }
                         },
                         // Can't have a literal newline in a character
@@ -477,7 +503,16 @@ impl Iterator for Lexer {
                 // If the first character is not a symbol char -> error
                 if let Some(current) = self.current() {
                     if !Self::is_symbol_item(current) {
-                        return None;
+                        // Report the character and carry on after it, so that
+                        // the rest of the file is still lexed.
+                        let pos = self.get_range();
+                        self.consume_char();
+                        return Some(Err(LexError::UnexpectedToken(Box::new(Token::new(
+                            TokenType::Symbol(current.to_string()),
+                            current.to_string(),
+                            pos,
+                            self.source_id,
+                        )))));
                     }
                 }
 
